@@ -7,6 +7,7 @@
   (harness/c19), not by a theorem.
 -/
 import Zed.Model.SvcQueryio
+import Zed.Model.SvcDispatch
 namespace Zed.Props.C19
 open Zed.Svc
 
@@ -34,6 +35,86 @@ theorem mime_roundtrip_inv :
 /-- the response formats of the property's quantifier are all known to both tables -/
 theorem response_formats_known :
     ∀ f ∈ ["zng", "zson", "zjson", "json", "csv"], (formatToMediaType f).isSome = true := by decide
+
+/-- Format negotiation honours the Accept header: asking for exactly the media type of a
+    response format yields that format, whatever follows in the list. -/
+theorem negotiate_exact :
+    ∀ p ∈ Generated.C19.formatToMediaType, ∀ (rest : List String) (dflt : String),
+      negotiate dflt (p.2 :: rest) = some p.1 := by
+  intro p hp rest dflt
+  have h := mime_roundtrip p hp
+  have hne : ∀ q ∈ Generated.C19.formatToMediaType, ¬ (q.2 = "" ∨ q.2 = "*/*") := by decide
+  simp [negotiate, hne p hp, h]
+
+/-! ### Per-method refinement (handler = decode → lake operation → encode) -/
+
+/-- Every Interface method whose handler is pure dispatch reaches, through the service, the same
+    lake operation as direct access (regenerated from lake/api/local.go and service/handlers.go):
+    the same call with the same number of arguments, or the local handle's own method. -/
+theorem dispatch_same_core :
+    ∀ m ∈ ["CreatePool", "RemovePool", "RenamePool", "CreateBranch", "MergeBranch", "Revert", "Load", "Delete",
+      "DeleteWhere", "Compact", "AddVectors", "DeleteVectors", "Vacuum"], sameCore m = true := by decide
+
+/-- **remote_refines_local.**  For a method whose handler decodes what the client encoded,
+    applies the same guard and reaches the same lake operation: the call through the service
+    leaves the lake in the same state and returns the same response or error as direct access,
+    for every request and every state. -/
+theorem remote_refines_local {σ α ρ ω : Type} (encode : α → ω) (decode : ω → Option α)
+    (hcodec : ∀ r, decode (encode r) = some r)
+    (guardL guardH : α → Option String) (hguard : ∀ r, guardH r = guardL r)
+    (core : α → σ → Outcome σ ρ) (req : α) (s : σ) :
+    handlerRun decode guardH core (encode req) s = localRun guardL core req s := by
+  simp [handlerRun, hcodec, localRun, hguard]
+
+/-- The guards do differ for CreatePool on the current tree (regenerated): direct access rejects
+    the empty pool name, the handler does not … -/
+theorem createPool_guards_differ :
+    Generated.C19.localChecksEmptyPoolName = true ∧ Generated.C19.handlerChecksEmptyPoolName = false := by
+  decide
+
+/-- … so the refinement fails for CreatePool: with the guards the two paths have, some request
+    is rejected by one path and changes the state on the other. -/
+theorem not_remote_refines_local_createPool :
+    ¬ ∀ (core : String → List String → Outcome (List String) Unit) (name : String) (s : List String),
+        handlerRun (some : String → Option String)
+            (fun n => if Generated.C19.handlerChecksEmptyPoolName && n == "" then some "no pool name provided" else none)
+            core name s =
+          localRun
+            (fun n => if Generated.C19.localChecksEmptyPoolName && n == "" then some "no pool name provided" else none)
+            core name s := by
+  intro h
+  have := h (fun n s => (.ok (), s ++ [n])) "" []
+  revert this; decide
+
+/-- **load_refines_local_partial.**  Guard: the body reads to its end without error.  Then load
+    through the service is load by direct access. -/
+theorem load_refines_local_partial (body : List Item) (s : List (List Nat))
+    (h : (readAll body).2 = none) : handlerLoad body s = localLoad body s := by
+  have key : ∀ b : List Item, (readAll b).2 = none → (readAll b).1.map Item.recd = b := by
+    intro b
+    induction b with
+    | nil => simp [readAll]
+    | cons i r ih =>
+      cases i with
+      | recd n => intro hb; simp only [readAll] at hb ⊢; simp [ih hb]
+      | err m => intro hb; simp [readAll] at hb
+  unfold handlerLoad localLoad warningsReader
+  split
+  · rw [key body h]
+  · rfl
+
+/-- The handler's reader swallows read errors on the current tree (regenerated) … -/
+theorem load_reader_swallows :
+    Generated.C19.loadReaderWrapped = true ∧ Generated.C19.loadReaderSwallowsErrors = true := by decide
+
+/-- **not_load_refines_local.**  … so a body with good records followed by a read error is
+    committed up to the error through the service and rejected, with nothing committed, by direct
+    access; and a body that is broken from the start is reported as empty. -/
+theorem not_load_refines_local :
+    handlerLoad [.recd 1, .recd 2, .err "syntax"] [] = (.ok (), [[1, 2]]) ∧
+    localLoad [.recd 1, .recd 2, .err "syntax"] [] = (.error "syntax", []) ∧
+    handlerLoad [.err "syntax"] [] = (.error "empty transaction", []) ∧
+    localLoad [.err "syntax"] [] = (.error "syntax", []) := by decide
 
 /-! ### Framing -/
 
